@@ -52,7 +52,9 @@ KNOBS = {
 }
 # groups used by the tiers (every listed knob of the property is in QUICK)
 QUICK_KNOBS = [k for k in KNOBS]
-CONTEXTS = ["root", "subdir", "dashC", "worktree"]
+CONTEXTS = ["root", "subdir", "dashC", "worktree", "subdir-c", "subdir-nopager", "dashC-c", "dashC2"]
+# global options in front of the subcommand, per context (the command must mean the same thing with them)
+CONTEXT_GLOBALS = {"subdir-c": ["-c", "verif.ctx=1"], "subdir-nopager": ["--no-pager"]}
 
 
 def write_script(env, name, body):
@@ -238,9 +240,9 @@ class Runner:
 
     # -- command helpers honouring the context
     def _cwd(self, r):
-        if self.context == "subdir":
+        if self.context.startswith("subdir"):
             return os.path.join(r.path, "src")
-        if self.context == "dashC":
+        if self.context.startswith("dashC"):
             return self.env.root
         return r.path
 
@@ -248,9 +250,13 @@ class Runner:
         """a git command through the proxy, started according to the context"""
         if self.context == "dashC":
             rc, out, err = r.git("-C", r.path, *args, cwd=self.env.root)
-        elif self.context == "subdir":
+        elif self.context == "dashC-c":
+            rc, out, err = r.git("-c", "verif.ctx=1", "-C", r.path, *args, cwd=self.env.root)
+        elif self.context == "dashC2":
+            rc, out, err = r.git("-C", os.path.join(r.path, "src"), "-C", "..", *args, cwd=self.env.root)
+        elif self.context.startswith("subdir"):
             # pathspecs are relative to the repository root
-            rc, out, err = r.git(*self._toplevel_paths(args), cwd=os.path.join(r.path, "src"))
+            rc, out, err = r.git(*CONTEXT_GLOBALS.get(self.context, []), *self._toplevel_paths(args), cwd=os.path.join(r.path, "src"))
         else:
             rc, out, err = r.git(*args)
         if check and rc != 0:
@@ -419,7 +425,7 @@ class Runner:
         return {"commits": len(commits), "notes": notes, "blame": blames, "stats": stats, "foreign_prompt_note": foreign}
 
     def _obs_cwd(self, r):
-        return os.path.join(r.path, "src") if self.context == "subdir" else r.path
+        return os.path.join(r.path, "src") if self.context.startswith("subdir") else r.path
 
 
 SHA_RE = re.compile(r"\b[0-9a-f]{40}\b")
